@@ -268,7 +268,8 @@ Applicable(st, a) ==
 
 HandleElems(H) ==
   CASE H.k = "tmp"   -> <<H.held>> \o H.rest
-    [] H.k = "range" -> H.pre \o H.repl          \* `out` items are elements of pre
+    [] H.k = "range" -> SubSeq(H.pre, 1, H.s) \o SubSeq(H.pre, H.s + H.f + 1, H.e - H.b)   \* not yet yielded
+                        \o SubSeq(H.pre, H.e + 1, Len(H.pre)) \o H.out \o H.repl              \* tail, kept items, replacement
     [] H.k = "items" -> H.out
     [] OTHER         -> <<>>
 
